@@ -90,7 +90,7 @@ type ContractSet struct {
 var clauseKeywords = map[string]bool{
 	"func": true, "extern": true, "spec": true, "axiom": true, "lemma": true, "ghostvar": true, "ghostfield": true,
 	"constvar": true, "package": true,
-	"requires": true, "ensures": true, "always_ensures": true, "panic_ensures": true, "modifies": true, "panics_if": true,
+	"requires": true, "ensures": true, "ghost_ensures": true, "always_ensures": true, "panic_ensures": true, "modifies": true, "panics_if": true,
 	"may_panic": true, "pure": true, "preserves": true, "overflow": true, "loop": true, "known": true, "flag": true, "vars": true,
 }
 
